@@ -95,7 +95,7 @@ func tipNamesString(t *tree.Tree) string {
 func H_C07_collapse_length() {
 	n := sxParam("n", 4)
 	t := genTree(n, 2, false)
-	decorate(t, lenAll, true)
+	decorate(t, lenAll, supAny)
 	theta := sxLen("theta")
 	before := c07snapshot(t)
 	names := tipNamesString(t)
@@ -110,7 +110,7 @@ func H_C07_collapse_length() {
 func H_C07_collapse_support() {
 	n := sxParam("n", 4)
 	t := genTree(n, 2, false)
-	decorate(t, lenAll, true)
+	decorate(t, lenAll, supAny)
 	theta := sxLen("theta")
 	before := c07snapshot(t)
 	names := tipNamesString(t)
@@ -125,7 +125,7 @@ func H_C07_collapse_support() {
 func H_C07_collapse_depth() {
 	n := sxParam("n", 4)
 	t := genTree(n, 2, false)
-	decorate(t, lenAll, true)
+	decorate(t, lenAll, supAny)
 	if err := t.ReinitIndexes(); err != nil {
 		sxAssert(false, "ReinitIndexes failed on a valid tree")
 	}
@@ -146,7 +146,7 @@ func H_C07_collapse_depth() {
 func H_C07_resolve() {
 	n := sxParam("n", 4)
 	t := genTree(n, 2, false)
-	decorate(t, lenAll, true)
+	decorate(t, lenAll, supAny)
 	before := splitsOf(t, lenAll)
 	dbefore := distOf(t, n, lenMetric)
 	rootedBefore := t.Rooted()
